@@ -12,6 +12,7 @@ import (
 
 	"github.com/jeroenrinzema/psql-wire/pkg/verifshim/vsched"
 	"verif/engine/explore"
+	"verif/engine/pgproto"
 )
 
 // Scenarios returns the scenarios of a property for a tier with their preemption bounds.
@@ -164,6 +165,9 @@ func RunWorker(prop, tier string, shard, nshards int, deadline time.Time) int {
 			reps = 200
 		}
 		for _, sp := range c15Specs() {
+			if sp.dependency || sp.name == "S-H" {
+				continue // these use scheduler-only handlers
+			}
 			for i := 0; i < reps; i++ {
 				c15FreeRun(sp)
 				done.FreeRuns++
@@ -237,6 +241,30 @@ func init() {
 				continue
 			}
 			out = append(out, Plan{Sc: c16Scenario(sp), Bound: bound})
+		}
+		return out
+	}
+	// C02 schedule part: whatever Close does concurrently, a connection that is in the middle of
+	// building a message must still only ever emit well-formed messages
+	plans["C02"] = func(tier string) []Plan {
+		start := pgproto.Startup("user", "u")
+		bound := 2
+		if tier == "thorough" {
+			bound = 3
+		}
+		var out []Plan
+		for _, sp := range []c16Spec{
+			{name: "W1", conns: []c16Conn{{"c1", [][]byte{start, pgproto.Query("q")}}}, closers: 1, midFrame: true,
+				desc: "Close while a connection is half-way through encoding a DataRow (the row value yields to the scheduler mid-frame)"},
+			{name: "W2", conns: []c16Conn{{"c1", [][]byte{start, pgproto.Query("q")}}, {"c2", [][]byte{start, pgproto.Query("q")}}}, closers: 1, midFrame: true,
+				desc: "two connections encoding rows (yielding mid-frame) + Close"},
+		} {
+			if tier != "thorough" && sp.name == "W2" {
+				bound = 1
+			}
+			sc := c16Scenario(sp)
+			sc.Property = "C02"
+			out = append(out, Plan{Sc: sc, Bound: bound})
 		}
 		return out
 	}
